@@ -210,6 +210,53 @@ func corrC05(outDir string, seed uint64, tier string, replay string) *report {
 					rep.count("argon2 lanes "+h, true)
 				}
 			}
+			// Key at EVERY password length 0..300 (all 8-bit bytes), under every option variant of the scheme: buffers
+			// sized for "the usual" password are exactly what a length sweep finds
+			{
+				type ov struct {
+					has    bool
+					prefix string
+					num    int64
+				}
+				variants := []ov{{}}
+				nums := []int64(nil)
+				salt := []byte("saltsalt")
+				switch s.name {
+				case "sha256", "sha512":
+					nums, salt = []int64{1000}, []byte("saltsaltsaltsalt")
+				case "sha1":
+					nums = []int64{7}
+				case "desext":
+					nums, salt = []int64{3}, []byte("salt")
+				case "des":
+					salt = []byte("sa")
+				case "sunmd5":
+					nums = []int64{0}
+					variants = []ov{{}, {true, "$md5$", 1}, {true, "$md5,", 0}, {true, "$md5$", 0}}
+				case "bcrypt":
+					nums, salt = []int64{4}, []byte("abcdefghijklmnopqrstuu")
+					variants = []ov{{}, {true, "$2$", 0}, {true, "$2a$", 0}, {true, "$2b$", 0}}
+				case "argon2":
+					nums, salt = []int64{8, 1, 1}, []byte("c29tZXNhbHRzYWx0")
+					variants = []ov{{}, {true, "$argon2d$", 0x10}, {true, "$argon2i$", 0x13}, {true, "$argon2id$", 0x10}}
+				}
+				maxLen := 300
+				if tier == "thorough" {
+					maxLen = 1100
+				}
+				for _, v := range variants {
+					for n := 0; n <= maxLen; n++ {
+						a := keyArgs{tag: s.tag, pw: r.bytes(n), salt: salt, nums: nums, hasOpts: v.has, prefix: v.prefix, optNum: v.num}
+						if s.name == "nthash" && n%2 == 1 {
+							continue
+						}
+						pan, hung := guarded(func() { keyOf(a) })
+						bad(s.name+".Key", fmt.Sprintf("password_len=%d password_hex=%x salt=%q nums=%v opts=%v/%q/%d", n, a.pw, a.salt, a.nums, a.hasOpts, a.prefix, a.optNum), pan, hung)
+						rep.count(fmt.Sprint(s.name, "keylen", v, n), true)
+						rep.bump("key_length_sweep")
+					}
+				}
+			}
 			// Key and NewHash with arbitrary lengths
 			for i := 0; i < nMut/5; i++ {
 				a := keyArgs{tag: s.tag, pw: r.bytes(r.intn(4097)), salt: []byte(r.str(r.intn(70), alphaCrypt+"@$"))}
